@@ -1138,6 +1138,11 @@ def inline_locals(fnode, expr, depth=6):
     are named, and ties it to where they come from."""
     import copy
     defs = {}
+    if isinstance(fnode, (ast.FunctionDef, ast.AsyncFunctionDef, ast.Lambda)):
+        a_ = fnode.args
+        for x in a_.posonlyargs + a_.args + a_.kwonlyargs + \
+                [y for y in (a_.vararg, a_.kwarg) if y is not None]:
+            defs.setdefault(x.arg, []).append(None)
     for n in ast.walk(fnode):
         if isinstance(n, ast.Assign):
             for t in n.targets:
